@@ -63,6 +63,11 @@ def handle (st : St) (n : Nat) (line : String) : Result := Id.run do
         let f2 := fail f.st n "C17" s!"configured log {(g "log").getD "?"} has a feeder type but is never fed after start-up: the feeder list and the witness map do not describe the same logs"
         return { st := f2.st, out := f.out ++ f2.out }
       return f
+  | "FBW" :: rest =>
+    let g := field rest
+    if (g "bodies").getD "-1" == "-1" then
+      return fail (st.bump "feedbastion.writer") n "C11" "the repository's own writer of the body format (cmd/feedbastion) could not be run: its bodies are not checked"
+    else return { st := { (st.bump "feedbastion.writer") with nOK := st.nOK + 1 }, out := [s!"OK {n}"] }
   | "OMS" :: rest =>
     let g := field rest
     let msg := ((g "err").bind hexOfString).map (fun b => String.fromUTF8! (ByteArray.mk b.toArray)) |>.getD "?"
